@@ -39,6 +39,9 @@ Qed.
 Lemma offsets_of_head a rows : exists tl, offsets_of a rows = a :: tl.
 Proof. destruct rows; simpl; eauto. Qed.
 
+Lemma get_offsets_head a rows : get (offsets_of a rows) 0 = Ok a.
+Proof. destruct rows; reflexivity. Qed.
+
 Lemma spans_from_offsets rows : forall pre a,
   spans_from (pre ++ offsets_of a rows) (zlen pre) (length rows) = Ok (spans_of a rows).
 Proof.
@@ -147,6 +150,46 @@ Section Ragged.
   Context {X R : Type} (row : R -> X) (off len : R -> Z).
 
   Definition md_of (old : list Z) (e : R) : list Z := val [] (slice old (off e) (len e)).
+
+  Lemma ragged_sort_core_at old (A : list Z) (mds : list (list Z)) (xs : list X) (recs sorted : list R) :
+    old = A ++ concat mds -> length xs = length mds ->
+    Forall2 (fun x e => row e = fst x /\ slice old (off e) (len e) = Ok (snd x)) (combine xs mds) recs ->
+    Permutation recs sorted ->
+    exists mds',
+      copy_back old (map (fun e => (off e, len e)) sorted) (zlen A) old = Ok (A ++ concat mds', starts (zlen A) mds') /\
+      Permutation (combine xs mds) (combine (map row sorted) mds') /\
+      length mds' = length sorted /\ zlen (concat mds') = zlen (concat mds) /\
+      mds' = map (md_of old) sorted /\ map (md_of old) recs = mds /\ map row recs = xs.
+  Proof.
+    intros Eo Lx F P. exists (map (md_of old) sorted).
+    assert (Full : map (fun e => (row e, md_of old e)) recs = combine xs mds).
+    { clear P. induction F as [|x e l l' [H1 H2] F IH]; simpl; auto.
+      rewrite IH. unfold md_of. rewrite H2. simpl. rewrite H1. now destruct x. }
+    assert (MdRecs : map (md_of old) recs = mds).
+    { assert (map snd (map (fun e => (row e, md_of old e)) recs) = map snd (combine xs mds)) by now rewrite Full.
+      rewrite map_map in H. simpl in H. etransitivity; [exact H|].
+      clear - Lx. revert mds Lx. induction xs; intros [|m mds] L; simpl in *; try discriminate; auto.
+      f_equal. apply IHxs. lia. }
+    assert (SlOk : Forall (fun e => slice old (off e) (len e) = Ok (md_of old e)) sorted).
+    { apply Forall_forall. intros e He.
+      assert (In e recs) by (eapply Permutation_in; [symmetry; eauto|auto]).
+      clear - F H. induction F as [|x e' l l' [H1 H2] F IH]; [inversion H|].
+      destruct H as [->|H]; auto. unfold md_of. now rewrite H2. }
+    assert (Lz : zlen (concat (map (md_of old) sorted)) = zlen (concat mds)).
+    { rewrite <- MdRecs. apply Permutation_concat_zlen. apply Permutation_map. now symmetry. }
+    assert (RowRecs : map row recs = xs).
+    { assert (map fst (map (fun e => (row e, md_of old e)) recs) = map fst (combine xs mds)) by now rewrite Full.
+      rewrite map_map in H. simpl in H. etransitivity; [exact H|].
+      clear - Lx. revert mds Lx. induction xs; intros [|m mds] L; simpl in *; try discriminate; auto.
+      f_equal. apply IHxs. lia. }
+    split; [|split; [|split; [|split; [|split; [|split]]]]]; auto.
+    - pose proof (copy_back_spec old (map (fun e => (off e, len e)) sorted) (map (md_of old) sorted)) as CB.
+      specialize (CB ltac:(clear - SlOk; induction SlOk; simpl; constructor; auto)).
+      specialize (CB A (concat mds) []). rewrite !app_nil_r in CB. rewrite <- Eo in CB.
+      apply CB. now rewrite Lz.
+    - rewrite <- Full. rewrite combine_map_l. now apply Permutation_map.
+    - now rewrite map_length.
+  Qed.
 
   Lemma ragged_sort_core old (mds : list (list Z)) (xs : list X) (recs sorted : list R) :
     old = concat mds -> length xs = length mds ->
